@@ -272,6 +272,49 @@ func (h *hist) c07Check() {
 				h.violate("second-pass-changes", "running the indexer a second time (j=%d) changed index rows", j)
 				return
 			}
+			// consequence of hidden index state (last-indexed position, tombstones): a write through the replayed index must land and survive
+			if j%3 == 0 {
+				name := "/c07-written-after-replay"
+				data := genContent(900, "text", uint64(j)+17)
+				fh, err := rg.FS.Create(name)
+				if err != nil {
+					h.violate("write-after-replay|create", "Create on the instance over the replayed index (j=%d) fails: %v", j, err)
+					return
+				}
+				_, werr := fh.Write(data)
+				cerr := fh.Close()
+				if werr != nil || cerr != nil {
+					h.violate("write-after-replay|write", "writing through the replayed index (j=%d): write=%v close=%v", j, werr, cerr)
+					return
+				}
+				rg.LocksSettled()
+				lt, err := WalkTree(rg.FS, true)
+				rg.LocksSettled()
+				if err != nil {
+					h.violate("write-after-replay|walk", "walk after writing through the replayed index (j=%d): %v", j, err)
+					return
+				}
+				want := Tree{}
+				for k, v := range ref {
+					want[k] = v
+				}
+				e := lt[name]
+				want[name] = Entry{Kind: "f", Size: 900, RdLen: 900, Sum: sum(data), Perm: e.Perm, Uid: e.Uid, Gid: e.Gid, Mtime: e.Mtime, Atime: e.Atime}
+				if ds := DiffTrees(want, lt, "expected", "replayed+write", true); len(ds) > 0 {
+					h.violate("write-after-replay|tree", "after a write through the replayed index (j=%d) the tree is not the from-scratch tree plus the new file: %s", j, shortList(ds, 5))
+					return
+				}
+				rt, err := walkVia(h.w, h.cfg, d, false, "c07reb")
+				if err != nil {
+					h.violate("write-after-replay|rebuild", "rebuild after a write through the replayed index (j=%d): %v", j, err)
+					return
+				}
+				if ds := DiffTrees(lt, rt, "replayed+write", "rebuilt", true); len(ds) > 0 {
+					h.violate("write-after-replay|rebuild-differs", "the write through the replayed index (j=%d) does not survive a rebuild: %s", j, shortList(ds, 5))
+					return
+				}
+				h.res.count("writes_after_replay_checked", 1)
+			}
 			h.res.count("replays_checked", 1)
 		}()
 		if h.res.Verdict != "" {
